@@ -462,7 +462,8 @@ class tenmat:
         -------
         :class:`numpy.ndarray`, float, int
         """
-        return self.data[item]
+        # (a copy: basic slices of the stored matrix would otherwise be views of it)
+        return self.data[item].copy()
 
     def __mul__(self, other):
         """
